@@ -48,7 +48,7 @@ impl<'a> Iterator for MacroBlockIter<'a> {
     type Item = MacroBlockEntry;
 
     fn next(&mut self) -> Option<Self::Item> {
-        if self.i + 3 > self.data.len() {
+        if self.i + 3 >= self.data.len() {
             return None;
         }
         let data = [
